@@ -8,9 +8,7 @@ import (
 	"os"
 	"strconv"
 
-	"io"
-
-	"github.com/google/logger"
+	"syscall"
 
 	"verifharness/core"
 	"verifharness/props"
@@ -36,7 +34,14 @@ var table = map[string]func(*core.Ctx){
 }
 
 func main() {
-	logger.Init("", false, false, io.Discard)
+	// The library packages initialise github.com/google/logger on os.Stdout (fd 1) in their
+	// init functions; keep our own stdout clean: move fd 1 to /dev/null and write to a duplicate.
+	if fd, err := syscall.Dup(1); err == nil {
+		if devnull, err := os.OpenFile(os.DevNull, os.O_WRONLY, 0); err == nil {
+			_ = syscall.Dup2(int(devnull.Fd()), 1)
+			os.Stdout = os.NewFile(uintptr(fd), "/dev/stdout")
+		}
+	}
 	tier := flag.String("tier", "quick", "quick|thorough")
 	seed := flag.Int64("seed", 1, "PRNG seed")
 	replay := flag.String("replay", "", "replay file")
